@@ -14,7 +14,8 @@ Fragment (anything else is reported as a broken 'translation' obligation, never 
 Generated modules:
   PygGen.Ym       ym, ymdSwap (the day/year swap guard of _ymd), ymd (normalised month + day offset)
   PygGen.Num2dt   num2dt : Int -> NumKind (threshold table)
-  PygGen.BDay     bOff wday n : Int (closed-form business-day block of dt_bump, offset in days)
+  PygGen.BDay     bOff wday n : Int (closed-form business-day block of dt_bump, offset in days); bOffPath wday n : List Int
+                  (the offset after each update of t inside the block, for the intermediate OverflowErrors)
   PygGen.Tables   bumpUnit (unit letter -> Step), periodUnits, namedTenors, wkdays, months, regex sources
 """
 import ast, os, re
@@ -487,16 +488,35 @@ def gen_bday_and_tables(tree):
         env = Env(['bdays', 'wday', 't'])
         blk = Block(t_hook, lambda v, e: e.map['t'])
         lines = []
+        path = []          # the name of `t` after each top-level statement that updates it: every one is a datetime the code constructs
+
+        def t_updates(stmts):
+            """largest number of updates of t along one path through `stmts`"""
+            k = 0
+            for x in stmts:
+                if isinstance(x, ast.If):
+                    k += max(t_updates(x.body), t_updates(x.orelse))
+                elif (isinstance(x, ast.Assign) and any(same(g, 't') for g in x.targets)) or (isinstance(x, ast.AugAssign) and same(x.target, 't')):
+                    k += 1
+            return k
         for s in body[2:]:
+            before = env.map['t']
+            if t_updates([s]) > 1:
+                raise Unsupported('business-day block: one top-level statement updates t more than once (intermediate values would be lost)', s)
             blk.one(s, env, lines, 1)
-        boff = (lines, env.map['t'], node)
+            if env.map['t'] != before:
+                path.append(env.map['t'])
+        boff = (lines, env.map['t'], node, path)
         arms.append((letter, '.bday n', node.lineno))
     if boff is None:
         raise Unsupported('dt_bump: no business-day block found')
-    lines, tname, node = boff
+    lines, tname, node, path = boff
     text_b = ['/-- the business-day block of `dt_bump` (`elif bmp.endswith(\'b\')`, lines %d-%d): total offset in DAYS added to `t`,' % (node.lineno, node.end_lineno),
               'as a function of `wday = t.weekday()` and `bdays = int(bmp[:-1])` -/',
               'def bOff (wday bdays : Int) : Int :=', '  let t : Int := 0'] + lines + ['  ' + tname, '']
+    text_b += ['/-- the same block, giving the offset of `t` (in DAYS) after EACH top-level statement of the block that updates `t`, in order:',
+               'every element is a datetime the code constructs on the way (each addition can raise OverflowError); the last one is `bOff` -/',
+               'def bOffPath (wday bdays : Int) : List Int :=', '  let t : Int := 0'] + lines + ['  [%s]' % ', '.join(path), '']
     bday = 'import PygModel.GenTypes\n\nnamespace Pyg.Gen\n\n' + '\n'.join(text_b) + '\nend Pyg.Gen\n'
 
     # ---- tables
@@ -532,7 +552,7 @@ def gen_bday_and_tables(tree):
         v = find_assign(tree, name)
         if not (isinstance(v, ast.Call) and same(v.func, 're.compile') and len(v.args) == 1 and isinstance(v.args[0], ast.Constant) and isinstance(v.args[0].value, str)):
             raise Unsupported('%s is not re.compile(<literal>)' % name, v)
-        out += ['/-- source of the `%s` regex (line %d); the hand-written matcher in PygModel/DateParse.lean is pinned to this text by a theorem -/' % (name, v.lineno),
+        out += ['/-- source of the `%s` regex (line %d); a changed text breaks the `rfl` theorem C04.ambiguity_regex_is_modelled (ambiguity only); what the hand-written matcher of PygModel/DateParse.lean does is tied to the regex SEMANTICS by C04.ambiguous_iff -/' % (name, v.lineno),
                 'def re_%s : String := "%s"' % (name, v.args[0].value.replace('\\', '\\\\').replace('"', '\\"')), '']
     tables = 'import PygModel.GenTypes\n\nnamespace Pyg.Gen\n\n' + '\n'.join(out) + '\nend Pyg.Gen\n'
     return bday, tables
